@@ -519,16 +519,13 @@ def compare(ctx, opname, qual, sch, got, want, case, what="wrong-rows"):
         what = "numeric-type-changed"          # same numbers, int <-> float <-> bool
         who = "ragged-numeric" if who in RAGGED_NUM else who
         qual = ""
-    sig = "%s%s:%s:%s%s" % ("with-context:" if ctx.context else "", opname, who,
-                            what if how == "rows" else "wrong-row-count", qual)
+    sig = "%s:%s:%s%s" % (opname, who, what if how == "rows" else "wrong-row-count", qual)
     ctx.col.fail(sig, case, "columns %s: got %r expected %r" % ([f.name for f in bad], got[:4], want[:4]))
     return False
 
 
 def run_guarded(ctx, opname, case, fn, with_origin=True):
     """-> (ok, value). Obs and unexpected exceptions become failures"""
-    if ctx.context:
-        opname = "with-context:" + opname
     try:
         return True, fn()
     except Obs as o:
@@ -783,6 +780,9 @@ def apply_op(ctx, node, op):
     if n == 0 and name in ("add", "rt_tuples"):
         # one class: these two need a first row to look at
         ok, res = run_guarded(ctx, name + ":zero-rows", case, lambda: step(t, info), with_origin=False)
+    elif ctx.context and name == "add":
+        # one class: add_fields of a table that carries a context (every chunk read from a file does)
+        ok, res = run_guarded(ctx, "add:with-context", case, lambda: step(t, info), with_origin=False)
     else:
         ok, res = run_guarded(ctx, name + qual, case, lambda: step(t, info))
     if not ok:
@@ -1211,7 +1211,7 @@ def run(tier="quick", seed=0):
         "wide (10 kinds) / nested-in-nested / single-column": "n=3: rep x mini (singles: rep), n=0,1: rep" if quick else "n=3: full x rep, n=0..2: rep x mini",
         "bionumpy.datatypes (27 classes; 3 genotype-row classes not modelled)":
             "n=3: rep, n=0: mini (depth 1)" if quick else "n=3: rep x mini, n=0..2: rep",
-        "sampled": "%d random programs of 3 operations (full parameters) per kind / wide / nested schema, n=3, seeded" % (25 if quick else 200),
+        "sampled": "%d random programs of 3 operations (full parameters) per kind / wide / nested schema, n=3, seeded" % (15 if quick else 200),
         "construct": "every schema x n=0..3 x input forms python lists / keyword arguments / library containers / alternative "
                      "containers (tuple, numpy U/S arrays, base-encoded text, list of arrays) / cls.empty(); 12 ill-typed inputs x n in {1,3}; "
                      "one column shorter / longer by 1 in constructor, replace, add_fields",
@@ -1288,7 +1288,7 @@ def run(tier="quick", seed=0):
     for sch in [Sch("K_str", [["k", "int"], ["v", "str"]], None, True), Sch("Interval", DATATYPES["Interval"], datatype="Interval")]:
         section(sch.name + " with context", lambda: run_programs(col, sch, [0, 1, 3], ("rep",), context=True))
     for sch in kind_schemas() + other_schemas():
-        section(sch.name + " sampled", lambda: sample_programs(col, sch, 3, 3, 25 if quick else 200))
+        section(sch.name + " sampled", lambda: sample_programs(col, sch, 3, 3, 15 if quick else 200))
     return col.result()
 
 
